@@ -15,10 +15,11 @@ from . import VERIF_DIR, REPO_SRC
 # recording registry
 # ---------------------------------------------------------------------------------------------
 class HitRec:
-    __slots__ = ("node", "text", "start", "end", "source", "supplied", "call", "value", "type")
+    __slots__ = ("node", "text", "start", "end", "source", "supplied", "call", "value", "type", "spec")
 
-    def __init__(self, node, text, source, call):
+    def __init__(self, node, text, source, call, spec=None):
         self.node = node
+        self.spec = spec
         self.text = text
         self.start = node.start
         self.end = node.end
@@ -43,8 +44,10 @@ class Recorder:
     """Multidecoder whose registry records, for every call, the text searched and the hits as returned
     (before the engine shifts / re-parents them)."""
 
-    def __init__(self, registry=None):
+    def __init__(self, registry=None, keep_specs=False):
         from multidecoder.multidecoder import Multidecoder
+
+        self.keep_specs = keep_specs
         from multidecoder.registry import build_registry
 
         base = registry if registry is not None else build_registry()
@@ -65,8 +68,14 @@ class Recorder:
             out = f(data)
             call = len(self.calls)
             self.calls.append((data, name))
-            for n in out:
-                self.hits.append(HitRec(n, data, name, call))
+            if self.keep_specs:
+                from .engine import H
+
+                for n in out:
+                    self.hits.append(HitRec(n, data, name, call, H.from_node(n)))
+            else:
+                for n in out:
+                    self.hits.append(HitRec(n, data, name, call))
             return out
 
         g.__name__ = name
